@@ -54,7 +54,7 @@ claim("C03", "Lean 4 theorems about definitions regenerated from the source (py2
       "transformers whose range is a proper sub-range of R; tanh planar flows (forward-only: sample of the default orientation raises NotImplementedError); the "
       "bisection inverter's tolerance inside BNAF flows (C10).", "DESIGN.md §5 C03")
 
-claim("C12", "Lean 4 theorems (core Lean, no Mathlib) about a hand model of pytrees with wrapper nodes + differential correspondence on real pytrees and real training runs",
+claim("C12", "Lean 4 theorems (core Lean, no Mathlib) about a hand model of pytrees with wrapper nodes whose per-class unwrap bodies are also instantiated with the bodies regenerated from flowjax/wrappers.py + differential correspondence on real pytrees and real training runs",
       "For every pytree (any size, nesting depth, container width, any per-class unwrap bodies returning wrapper-free values): unwrap leaves no wrapper, is idempotent, applies "
       "every wrapper node exactly once with inner wrappers before outer ones, and commutes with slicing a tree built under any number of vmap levels (batched unwrap = stack of "
       "per-slice unwraps); a method of the form g∘unwrap gives the same result on t and unwrap t; partition(is_inexact_array, is_leaf=NonTrainable) puts every leaf under a "
@@ -62,12 +62,17 @@ claim("C12", "Lean 4 theorems (core Lean, no Mathlib) about a hand model of pytr
       "the trained tree has the same static half (frozen and non-float leaves bit-identical); get_ravelled_pytree_constructor counts only trainable entries, fixes the frozen ones "
       "for every v, and constructor(0)=t. The model is run against the real unwrap / eqx.partition / apply_updates / constructor on random real wrapper trees (order of application "
       "observed through instrumented subclasses), vmapped constructions and real flows; real fit_to_data / fit_to_variational_target runs (adam, sgd+momentum, adamw with weight decay) "
-      "are compared bitwise on frozen leaves; all bijection/distribution methods are compared on t vs unwrap(t).",
+      "are compared bitwise on frozen leaves; all bijection/distribution methods are compared on t vs unwrap(t). The unwrap bodies of NonTrainable, BijectionReparam (and its constructor), "
+      "Where, WeightNormalization (matrix and rank-3 batch) and Lambda are regenerated from flowjax/wrappers.py on every run (Gen/Wrappers.lean), assembled into one WrapFn (Model/WrapGen.lean) and "
+      "proved to satisfy the two hypotheses the theorems put on the abstract bodies (WrapFree, SkUniform), so the unwrap theorems hold of the real bodies outright; NonTrainable.unwrap is proved to be "
+      "the identity on values; the generated bodies are run against the real unwrap on matrices / rank-3 batches of many shapes and on whole nests (BNAF weight nest, masked MAF layers).",
       "Trusted: Lean 4.33 kernel, axioms propext/Classical.choice/Quot.sound (audited per run, no sorry/native_decide); the hand model Model/Tree.lean of jax flattening order, "
       "eqx.partition/combine/apply_updates, ravel_pytree and filter_vmap, and the encoder of real pytrees (both validated by the correspondence on every run). "
       "Partial: exactly-zero gradients rest on stop_gradient's semantics (measured: jax.grad is exactly 0; absence of frozen leaves from the differentiated params half is proved); "
       "Where/WeightNormalization built under vmap are covered only when their arguments broadcast batch-polymorphically (hypothesis in WB; the real Where with mixed-rank arguments under vmap "
-      "unwraps to a wrong value or raises); the per-class unwrap bodies are abstract.", "DESIGN.md §5 C12")
+      "unwraps to a wrong value or raises); the theorems quantify over abstract per-class unwrap bodies and are instantiated with the generated ones (translator tools/py2lean/py2nd.py + typing sheet "
+      "targets_wrappers.py trusted + compared: scale has the keepdims shape of the norms, bijection._vectorize.transform is the per-element transform, eqx.error_if returns its value when it does not raise, "
+      "stop_gradient is the identity on values; a Lambda's function stays a parameter).", "DESIGN.md §5 C12")
 
 claim("C08", "Lean 4 theorems about generated Chain/Invert, the generated Concatenate/Stack/Partial/Reshape/EmbedCondition (proved equal to a hand n-d array model) + differential correspondence on random expression trees",
       "For arrays of any rank and size: jnp.array_split/jnp.concatenate/jnp.stack along any axis are modelled on the (outer, axis, inner) view of row-major data and proved mutually "
@@ -85,7 +90,7 @@ claim("C08", "Lean 4 theorems about generated Chain/Invert, the generated Concat
       _TB + " Model/Arr.lean is a hand model tied by proof to the generated definitions and by correspondence to the code; Model/ArrJnp.lean (specs of jnp.array_split/split/concatenate/stack/squeeze/reshape/indexing) and the typing sheet targets_arrcomb.py are trusted + compared; Partial.idxs enters resolved to flat positions; lax.scan / filter_vmap themselves are JAX's; declared-shape algebra for negative axes is proved in C13's ArgCheck model. Premade flows: Model/FlowsPre.lean (Scan = Chain of the unstacked layers, filter_vmap(make_layer) = one layer per key) is trusted + compared "
       "on real flows through fj.unstack_scan; hand-stacked BNAF Scans are compared in the thorough tier (quick tier: under C01); dim 0 flows (ZeroDivisionError in the real code) are outside the statements.", "DESIGN.md §5 C08")
 
-claim("C09", "Lean 4 theorems about a hand-written executable model of the masks / masked networks + exhaustive structural and Float/Jacobian correspondence with the real objects",
+claim("C09", "Lean 4 theorems about the mask helpers / rank assignment / per-layer masks regenerated from the source (proved equal to a hand-written executable model of the masks and masked networks) + exhaustive structural and Float/Jacobian correspondence with the real objects",
       "For every size (dim, cond_dim, width, depth, parameters per dimension, block shape, number of blocks, offset) and ALL raw weight/bias/scale values and activations: "
       "the mask helpers return exactly the documented patterns (block_tril_mask's loop is modelled literally and proved equal to its closed form); masks are applied at unwrap so "
       "the computed weight is 0 wherever the mask is false; output o of the masked MLP is unchanged by inputs of rank >= rank o; with the constructor's rank formulas (both branches, "
@@ -93,9 +98,13 @@ claim("C09", "Lean 4 theorems about a hand-written executable model of the masks
       "condition input is joined by a path of true mask entries; Coupling.transform returns its first block and transforms coordinate i as a function of x_i, the first block and the "
       "condition; the BNAF transform has dy_i/dx_j = 0 for j>i and dy_i/dx_i > 0 (differentiable activation with positive derivative) and is strictly increasing in its own coordinate "
       "for any strictly increasing activation. The model is compared with the real flowjax.masks functions and the Where.cond arrays of really constructed MaskedAutoregressive objects "
-      "over the whole size grid, its forward passes with the real transform at Float on overwritten raw leaves, and its dependency pattern with jax.jacobian sparsity.",
-      _TB.replace("the py2lean translator with its typing sheets and the Prelude/Jnp.lean primitive specs", "the hand-written model lean/Flowjaxv/Model/Masks.lean and the Prelude/Jnp.lean dot/sum specs")
-      + " eqx.nn.MLP/Linear call semantics are modelled (weight @ x + bias, scalar activation per unit); shapes allocated by the constructors enter as WellShaped hypotheses, checked on every real object.",
+      "over the whole size grid, its forward passes with the real transform at Float on overwritten raw leaves, and its dependency pattern with jax.jacobian sparsity. "
+      "rank_based_mask, block_diag_mask, block_tril_mask (its for-loop, slices and max(0, i-k) included), the rank assignment of MaskedAutoregressive.__init__ (both branches) and the loop of "
+      "masked_autoregressive_mlp (eq = i != len(layers) - 1, Where(mask, weight, 0) put in place by eqx.tree_at) are regenerated from masks.py / masked_autoregressive.py on every run "
+      "(Gen/MasksGen.lean) and proved equal to the hand model for every size, so the mask and MAF theorems hold of what the code says now; the generated definitions are run against the real "
+      "functions / Where.cond arrays on the same grid.",
+      _TB.replace("the py2lean translator with its typing sheets and the Prelude/Jnp.lean primitive specs", "the hand-written model lean/Flowjaxv/Model/Masks.lean (masked MLP / Coupling / BNAF forward passes; the masks and ranks are tied to it by proof from the regenerated definitions), the translator tools/py2lean/py2mask.py with its typing sheet targets_masks.py, the primitive specs Prelude/JnpMask.lean (arange, integer % with x % 0 = 0, hstack, repeat, broadcasting comparison, Python slice bounds, .at[a:b, c:d].set, block_diag, enumerate) and the Prelude/Jnp.lean dot/sum specs")
+      + " eqx.nn.MLP/Linear call semantics are modelled (weight @ x + bias, scalar activation per unit); shapes allocated by the constructors enter as WellShaped hypotheses (and len(mlp.layers) = depth + 1 for the generated masked_autoregressive_mlp), checked on every real object.",
       "DESIGN.md §5 C09")
 
 claim("C11", "Lean 4 theorems about definitions regenerated from the source (py2lean) and a hand-written constructor glue + Float correspondence",
@@ -104,7 +113,10 @@ claim("C11", "Lean 4 theorems about definitions regenerated from the source (py2
       "spline knot vector is strictly increasing from interval[0] to interval[1] with knots+2 entries and derivatives above min_derivative (initialised to exactly 1); "
       "the generated planar get_act_scale gives w.u_hat = -1 + log(1+softplus(w.u)) > -1 hence positive Jacobian factors for tanh and every leaky slope in (0,1]; "
       "mixture weights are positive, sum to one and reproduce w/sum(w); a weight-normalised non-zero row has norm softplus(raw); each modelled guard rejects exactly the "
-      "invalid set (scale/df/weights <= 0, maxval <= minval, sort(p) != arange <=> not a permutation).",
+      "invalid set (scale/df/weights <= 0, maxval <= minval, sort(p) != arange <=> not a permutation). The wrappers' unwrap bodies are regenerated too (Gen/Wrappers.lean): "
+      "WeightNormalization.unwrap on a whole matrix of any shape equals the per-row kernel row by row (so the norm is over the last axis) and every row of the result has norm |scale_row|, "
+      "slice by slice for a rank-3 batch; Where.unwrap selects (and with a matrix condition and if_false = 0 is the C09 masking function); BijectionReparam's generated constructor followed by "
+      "the generated unwrap reproduces the argument for every lawful bijection and stores a value in the bijection's domain.",
       _TB + " Partial: float rounding inside the +-50 box is measured, not proved — two float absorption regions (planar w.u < -36.7/-16.6; spline softmax_adjust=0 with raw spread >= 36/16) "
       "are KNOWN FINDINGS listed in known_findings.json; float32 underflow of tiny mixture weights is documented; eqx.error_if raising is observed at run time; "
       "the hypotheses w != 0 (planar, weight norm) and knots >= 1 are needed (real code: NaN / ZeroDivisionError there).", "DESIGN.md §5 C11")
